@@ -1392,3 +1392,24 @@ package gedcom
 //@   trusted
 //@   pure
 //@   ensures result == (node != nil && livingOf(node))
+
+// C17: the living test itself (documentation of IsLiving): nil is not living;
+// anybody with a death event is not living; otherwise living unless the
+// document's MaxLivingAge is not 0 and the estimated birth year is known and
+// more than MaxLivingAge years before the current year. Nothing else (a
+// burial, a name, ...) takes part.
+//@ func IndividualNode.IsLiving
+//@   props C17
+//@   ghost nDeaths int = 0
+//@   ghost maxAge real = 0.0
+//@   ghost nowY int = 0
+//@   ghost birthY real = 0.0
+//@   opaque IndividualNode.Deaths, IndividualNode.EstimatedBirthDate, Years, simpleDocumentNode.Document
+//@   oncall IndividualNode.Deaths check own: arg0 == node
+//@   oncall IndividualNode.Deaths do nDeaths = len(result)
+//@   oncall simpleDocumentNode.Document do maxAge = result.MaxLivingAge
+//@   oncall time.Time.Year do nowY = result
+//@   oncall IndividualNode.EstimatedBirthDate check own: arg0 == node
+//@   oncall Years do birthY = result
+//@   ensures nil-not-living: implies(node == nil, !result)
+//@   ensures documented: implies(node != nil, result == (nDeaths == 0 && (maxAge == 0.0 || birthY == 0.0 || real(nowY) - birthY <= maxAge)))
